@@ -122,7 +122,7 @@ class RepoInterp:
         repo: Repo,
         fi: FunctionInfo,
         oracle: Optional[Dict[str, V]] = None,
-        inline: Iterable[str] = (),
+        inline: Optional[Iterable[str]] = None,
         may_fork: Iterable[str] = (),
         call_hook: Optional[Callable[..., Optional[V]]] = None,
         max_depth: int = 4,
@@ -131,7 +131,9 @@ class RepoInterp:
         self.repo = repo
         self.fi = fi
         self.oracle = dict(oracle or {})
-        self.inline = set(inline)
+        # default: helpers of the entry function's own module (and methods of its class) are interpreted, so that
+        # extracting a few lines into a helper does not blind a rule
+        self.inline = set(inline) if inline is not None else {f.fq for f in fi.module.functions.values()}
         self.may_fork = set(may_fork)
         self.call_hook = call_hook
         self.max_depth = max_depth
@@ -549,6 +551,11 @@ def platform_call(fname: Optional[str], fval: Optional[V], call: ast.Call, args:
         return K(r)
     if fname == "bool" and len(args) == 1 and isinstance(args[0], K):
         return K(bool(args[0].v))
+    if fname in ("os.path.splitext", "os.path.basename", "os.path.dirname", "os.path.join", "posixpath.splitext") and args \
+            and all(isinstance(a, K) and isinstance(a.v, str) for a in args) and not kwargs:
+        import posixpath as _pp  # pure string functions of the platform library
+        r = getattr(_pp, fname.rsplit(".", 1)[1])(*[a.v for a in args])
+        return K(tuple(K(x) for x in r)) if isinstance(r, tuple) else K(r)
     if fname in ("int", "str") and len(args) == 1 and isinstance(args[0], K) and isinstance(args[0].v, (int, str, bool)):
         try:
             return K(int(args[0].v) if fname == "int" else str(args[0].v))
